@@ -150,6 +150,17 @@ func TestHelperScenario(t *testing.T) {
 		ctx, cancel := context.WithCancel(context.Background())
 		defer cancel()
 		Run([]func(){func() { ChanRecv(ctx.Done()) }, func() { Yield(YAtomic, 0) }})
+	case "user-waits-for-leaked-worker":
+		ch := RegChan(make(chan int))
+		Run([]func(){func() {
+			Go(func() {
+				tk := TimeNewTicker(time.Second)
+				for {
+					ChanRecv(tk.C)
+				}
+			})
+			ChanRecv(ch) // a call that never returns is a verdict, janitor or not
+		}})
 	case "ticker-only":
 		ch := RegChan(make(chan int))
 		Run([]func(){func() {
@@ -473,6 +484,9 @@ func TestForeignChannelNobodyClosesIsADeadlockVerdict(t *testing.T) {
 	}
 	if v := scenarioVerdict(t, "ticker-only", 1); v != VDeadlock {
 		t.Fatalf("ticker: verdict %d", v)
+	}
+	if v := scenarioVerdict(t, "user-waits-for-leaked-worker", 1); v != VDeadlock && v != VStepCap { // the ticking janitor makes it "never ends" rather than "nobody can run"
+		t.Fatalf("user task blocked next to a janitor: verdict %d", v)
 	}
 }
 
@@ -809,6 +823,46 @@ func TestSpinWaitsTerminateUnderEveryPolicy(t *testing.T) {
 				}
 				Run([]func(){spin, set, spin})
 			}
+		}
+	}
+}
+
+// A run is over when the harness's tasks have finished and the library's own tasks
+// cannot take a step: a janitor with a ticker does not keep it alive (nor is it a
+// deadlock), and what timers set in motion for the near future happens first.
+func TestJanitorIsAbandonedAndDelayedEffectsShow(t *testing.T) {
+	for seed := uint64(1); seed <= 100; seed++ {
+		Begin(cfg(seed, int(seed)%NPolicies))
+		sweeps := 0
+		buf := []byte("abc")
+		stuck := RegChan(make(chan int))
+		Run([]func(){func() {
+			Go(func() { // janitor, never stopped
+				tk := TimeNewTicker(time.Second)
+				for {
+					ChanRecv(tk.C)
+					sweeps++
+				}
+			})
+			Go(func() { ChanRecv(stuck) }) // a leaked worker, waits for work for ever
+			TimeAfterFunc(5*time.Second, func() { buf[0] = 'X' })
+			TimeAfterFunc(3*time.Hour, func() { buf[1] = 'Y' }) // beyond the horizon
+		}})
+		st := GetStats()
+		if st.Abandoned != 2 {
+			t.Fatalf("seed %d: %d tasks abandoned", seed, st.Abandoned)
+		}
+		if string(buf) != "Xbc" {
+			t.Fatalf("seed %d: buf %q", seed, buf)
+		}
+		if sweeps < 5 || sweeps > 256 {
+			t.Fatalf("seed %d: %d sweeps", seed, sweeps)
+		}
+		// the next phase of the same run works, and time goes on from where it was
+		ok := false
+		Run([]func(){func() { ChanRecv(TimeAfter(time.Minute)); ok = true }})
+		if !ok {
+			t.Fatalf("seed %d: second phase", seed)
 		}
 	}
 }
